@@ -514,6 +514,14 @@ func buildNode(env *Env, spec *Spec, id int, slices []bigslice.Slice, args []big
 		ft := reflect.FuncOf(withCtx(n.Fn, []reflect.Type{vt, vt}), []reflect.Type{vt}, false)
 		f := reflect.MakeFunc(ft, func(a []reflect.Value) []reflect.Value {
 			ctx, rest := splitCtx(n.Fn, a)
+			if n.Fn != nil && n.Fn.Gauge {
+				// a task that is combining is a task that is running (C14, local mode)
+				TheGauge.start(false)
+				if n.Fn.SleepUs > 0 {
+					time.Sleep(time.Duration(n.Fn.SleepUs) * time.Microsecond)
+				}
+				TheGauge.end(false)
+			}
 			must(hook(env, id, n.Fn, ctx, -1, false))
 			return []reflect.Value{reflect.ValueOf(Combine(vc, rest[0].Interface(), rest[1].Interface()))}
 		})
